@@ -82,8 +82,12 @@ Print Assumptions C11_stop_leaves_nothing.
    Actions: AInstr i q (any instruction / init / stop of host i), ACreate (create-and-keep of one pair towards another
    node: EprGate.cmd_epr_keep + delivery to the peer's deque + mapping of the kept half; a creation that fails after a
    temporary qubit exists removes its temporaries again -- the repair of the former finding C11:epr-temporaries -- and is an
-   ordinary action), ARecv (poll: a delivered half is entered into qubitList and mapped).  `cleans` excludes exactly: binding
-   a half to a virtual address that is not free, and initialising an application id that still has a unit module. *)
+   ordinary action), ACreateM (ONE pair of a measure-directly request: EprGate.cmd_epr_measure -- both temporaries rotated
+   into their sampled bases, measured destructively and removed -- + delivery of the peer's outcome record to the SAME deque
+   delivered halves wait in), ARecv (poll: a delivered half is entered into qubitList and mapped; an outcome record is popped
+   and nothing is mapped).  `cleans` excludes exactly: binding a half to a virtual address that is not free, and initialising
+   an application id that still has a unit module.  The theorems below quantify over ALL action lists, measure-directly
+   requests and polls of their records included. *)
 From SQ Require Import Net.Handles Qasm.EprGate Qasm.PerNodeNum Qasm.TeardownX Qasm.TeardownNet Qasm.TeardownNetExamples.
 
 (* the one-host invariant is the special case "no unclaimed halves" of the generalised one *)
@@ -119,12 +123,14 @@ Print Assumptions C11_net_is_core_reachable.
 (* the population clause for N hosts: after ANY clean history of host-level actions over N hosts (instructions incl.
    allocations, frees, gates between halves simulated elsewhere, measurements, failing instructions, pair creations
    towards other hosts, receipts, stops, any number of generations): once every application on every host has been
-   stopped and every delivered half was claimed, no node holds a qubit, simulates a qubit or keeps a register *)
+   stopped and every delivered half was claimed, no node holds a qubit, simulates a qubit or keeps a register.
+   `halves` = the delivered halves among the deque entries: outcome records of measure-directly pairs that nobody polled
+   for may still be queued -- they hold no qubit and do not block the conclusion (C11_md_record_is_no_qubit) *)
 Theorem C11_net_stop_leaves_nothing : forall caps xs,
   let s := nrun (ninit caps) xs in
   cleans (ninit caps) xs ->
   (forall i, i < length caps -> h_units (host_at s i) = []) ->
-  n_pend s = [] ->
+  halves (n_pend s) = [] ->
   forall j, virt (nth_node (n_net s) j) = [] /\ sims (nth_node (n_net s) j) = [] /\
             regs (nth_node (n_net s) j) = [] /\ numRegs (nth_node (n_net s) j) = 0.
 Proof. exact net_stop_leaves_nothing. Qed.
@@ -267,8 +273,64 @@ Print Assumptions C11_failed_creation_leaves_creator.
 Theorem C11_pending_lookup_faithful : forall caps xs,
   let s := nrun (ninit caps) xs in
   cleans (ninit caps) xs ->
-  forall nd sk num hd, In (nd, sk, num, hd) (n_pend s) ->
+  forall nd sk num hd, In (DK (nd, sk, num, hd)) (n_pend s) ->
     hid_of_num (nth_node (n_net s) nd) num = Some hd /\ In hd (hn (nth_node (n_net s) nd)) /\
     forall p, plookup p (h_qlist (host_at s nd)) <> Some hd.
 Proof. exact pending_lookup_faithful. Qed.
 Print Assumptions C11_pending_lookup_faithful.
+
+(* ---- measure-directly requests (Qasm/EprGate.v cmd_epr_measure, Qasm/EprMeasureNode.v, Qasm/EprMeasure.v) --------------------------
+   A measure-directly request of one pair, in every state the global invariant describes (hence after every clean history):
+   whether it succeeds or fails, EVERY node's held qubits, simulated qubits, registers and register count, every other host,
+   and the creator's qubitList, unit modules and active applications are exactly what they were.  A success appends ONE outcome
+   record to the peer's deque (no half: `halves` unchanged) and keeps ONE physical id reserved at the creator -- the code never
+   releases it (no qubit is bound to it; _get_unused_physical_qubit hands out the next one); a failure changes nothing at all. *)
+From SQ Require Import Qasm.Epr Qasm.EprMeasureNode Qasm.EprMeasure.
+Theorem C11_md_request_leaves_nothing : forall s i known r adj lsock rsock seq bl br c1 c2 coins,
+  ninv s -> i < length (n_hosts s) ->
+  let x := ACreateM i known r adj lsock rsock seq bl br c1 c2 coins in
+  let s' := nstep s x in
+  (forall j, virt (nth_node (n_net s') j) = virt (nth_node (n_net s) j) /\ sims (nth_node (n_net s') j) = sims (nth_node (n_net s) j) /\
+             regs (nth_node (n_net s') j) = regs (nth_node (n_net s) j) /\ numRegs (nth_node (n_net s') j) = numRegs (nth_node (n_net s) j) /\
+             held (n_net s') j = held (n_net s) j) /\
+  (forall j, j <> i -> host_at s' j = host_at s j) /\
+  h_qlist (host_at s' i) = h_qlist (host_at s i) /\ h_units (host_at s' i) = h_units (host_at s i) /\
+  h_active (host_at s' i) = h_active (host_at s i) /\
+  ((snd (nstep_r s x) = RDone None /\
+    h_used (host_at s' i) = insert_sorted (fresh_id (h_used (host_at s i))) (h_used (host_at s i)) /\
+    exists rec, n_pend s' = n_pend s ++ [DM r rsock rec] /\ halves (n_pend s') = halves (n_pend s))
+   \/ (snd (nstep_r s x) = RErr /\ n_hosts s' = n_hosts s /\ n_pend s' = n_pend s)).
+Proof. exact md_request_leaves_nothing. Qed.
+Print Assumptions C11_md_request_leaves_nothing.
+
+(* an outcome record nobody polls for is no qubit: both applications stop, the record stays queued, and
+   C11_net_stop_leaves_nothing applies (its hypothesis speaks about delivered halves) *)
+Theorem C11_md_record_is_no_qubit :
+  cleans (ninit caps2) md_unpolled /\
+  length (n_pend (nrun (ninit caps2) md_unpolled)) = 1 /\
+  forall j, virt (nth_node (n_net (nrun (ninit caps2) md_unpolled)) j) = [] /\ sims (nth_node (n_net (nrun (ninit caps2) md_unpolled)) j) = [] /\
+            regs (nth_node (n_net (nrun (ninit caps2) md_unpolled)) j) = [] /\ numRegs (nth_node (n_net (nrun (ninit caps2) md_unpolled)) j) = 0.
+Proof. exact md_record_is_no_qubit. Qed.
+Print Assumptions C11_md_record_is_no_qubit.
+
+(* a failing measure-directly request inside a history (room for one more qubit only: the second cmd_new is refused, the first
+   temporary is removed again): error, no record, populations, hosts and deques as before, the stop leaves nothing *)
+Theorem C11_md_failed_request_restores :
+  cleans (ninit caps_tight) md_tight /\
+  nrun_res (ninit caps_tight) md_tight = [RDone None; RDone None; RErr; RDone None] /\
+  nrun_records (ninit caps_tight) md_tight = [] /\
+  populations (nrun (ninit caps_tight) (firstn 3 md_tight)) = populations (nrun (ninit caps_tight) (firstn 2 md_tight)) /\
+  n_hosts (nrun (ninit caps_tight) (firstn 3 md_tight)) = n_hosts (nrun (ninit caps_tight) (firstn 2 md_tight)) /\
+  n_pend (nrun (ninit caps_tight) (firstn 3 md_tight)) = [] /\
+  populations (nrun (ninit caps_tight) md_tight) = [(0, 0, 0, 0); (0, 0, 0, 0)].
+Proof. exact md_failed_request_restores. Qed.
+Print Assumptions C11_md_failed_request_restores.
+
+(* as long as nothing was measured the measure-directly code path IS the create-and-keep one (refused by the checks or by a
+   cmd_new): the same function value, so C11_failed_creation_restores / _leaves_creator carry over verbatim *)
+Theorem C11_md_refused_as_keep : forall i s known r adj qid bl br c1 c2 coins,
+  epr_gate known i r adj = false \/ snd (fst (cmd_new i s (PP qid))) = false \/
+  snd (fst (cmd_new i (fst (fst (cmd_new i s (PP qid)))) (PM qid))) = false ->
+  cmd_epr_measure i s known r adj qid bl br c1 c2 coins = (cmd_epr_keep i s known r adj qid coins, None).
+Proof. exact measure_refused_as_keep. Qed.
+Print Assumptions C11_md_refused_as_keep.
